@@ -1,4 +1,5 @@
 (* Property C02 -- seeds never change what a clone produces. *)
+From Bita Require Import Gen.Generated.
 From Bita Require Import Model.Base Model.ChunkIndex Model.CloneOutput Model.CloneSpec.
 From Bita Require Import Model.HashSum.
 From Bita Require Import Proofs.Planner Proofs.CloneCorrect Proofs.CloneFinal Proofs.HashKeyRefine.
@@ -85,6 +86,14 @@ Proof. exact clone_bytes_general. Qed.
 (* non-vacuity: computed instances (RollSum / fixed size, an old output re-ordered in place, one seed, the rest
    fetched) are cb_fixed_inplace_seed, cb_rolling_inplace_seed, cb_instance in Proofs/CloneBytesCorrect.v *)
 
+(* the phases of clone_archive in src/clone_cmd.rs (regenerated from the source on every run) come in the order the
+   byte-level model composes them: scan of the old output, re-ordering in place, seeds, archive, resize *)
+Definition C02_is_phase (s : clone_step) : bool :=
+  match s with ScanOutput | Reorder | SeedStdin | SeedFiles | FetchArchive | SetLen => true | _ => false end.
+Theorem C02_clone_phases_in_model_order :
+  filter C02_is_phase clone_step_order = [ScanOutput; Reorder; SeedStdin; SeedFiles; FetchArchive; SetLen].
+Proof. reflexivity. Qed.
+
 Example C02_example :
   let cidx := [(1, {| l_size := 3; l_offs := [0] |}); (0, {| l_size := 2; l_offs := [3;5] |})] in
   let r := clone_model [] None cidx None [(7, [9;9]); (0, [1;2])] [(1, [3;4;5]); (0, [1;2])] in
@@ -99,3 +108,4 @@ Print Assumptions C02_hash_keyed_index_refines_contains.
 Print Assumptions C02_lookup_truncates_consistently.
 Print Assumptions C02_clone_bytes_any_seeds.
 Print Assumptions C02_clone_bytes_any_archive.
+Print Assumptions C02_clone_phases_in_model_order.
